@@ -70,6 +70,6 @@ def gen_c02_random(rnd, tier):
                 else:
                     faces += [[a, b, d], [b, c, d]]
         qs = [[rnd.randint(-3, 2 * w + 3), rnd.randint(-3, 2 * h + 3), rnd.randint(-4, 9)] for _q in range(25 if tier == 'quick' else 80)]
-        out.append({'m': 'closest', 'op': 'mesh', 'name': 'heightfield', 'vpos': vpos, 'faces': faces, 'sc': 0, 'tf': rnd.randint(0, 2),
+        out.append({'m': 'closest', 'op': 'mesh', 'name': 'heightfield', 'vpos': vpos, 'faces': faces, 'sc': rnd.choice((0, 0, -21, 12)), 'tf': rnd.randint(0, 2),
                     'caps': [2, 4, 6, 12], 'angles': [30, 45, 60], 'qs': qs})
     return out
